@@ -14,9 +14,12 @@ use crate::util::ShardReport;
 pub fn run(check: &str, args: &Args, scratch: &Path) -> ShardReport {
     match check {
         "sim" => run_sim(args, scratch),
+        "simone" => run_sim_one(args, scratch),
+        "c37" | "c35" | "c13" => run_directed(check, args, scratch),
         "config" => crate::comp::config::run(args, scratch),
         "kv" => crate::comp::kv::run(args, scratch),
         "buflog" => crate::comp::buflog::run(args, scratch),
+        "storage" => crate::comp::storage::run(args, scratch),
         other => {
             let mut r = ShardReport::new(other);
             r.inconclusive.push(format!("unknown check {other}"));
@@ -69,13 +72,60 @@ fn run_sim(args: &Args, scratch: &Path) -> ShardReport {
                 rep.violation(
                     f.property,
                     &f.signature,
-                    json!({"t": f.t, "detail": f.detail, "trace": if rep.violations.iter().filter(|v| v.property == f.property && v.signature == f.signature).count() == 0 { json!(out.trace_tail) } else { json!([]) }}),
+                    json!({"t": f.t, "detail": f.detail, "trace": if rep.violations.iter().filter(|v| v.property == f.property && v.signature == f.signature).count() == 0 { json!(out.trace_around(f.t, 2500, 900)) } else { json!([]) }}),
                     plan.describe(),
                 );
             } else {
                 rep.count(&format!("other_findings.{}.{}", f.property, f.signature), 1);
             }
         }
+    }
+    rep
+}
+
+/// Re-run exactly one plan (replay / investigation): prints findings and, for `grep=<substr>`,
+/// the matching recorded events around the first finding of property `props`.
+fn run_sim_one(args: &Args, scratch: &Path) -> ShardReport {
+    let family = args.str("family", "election");
+    let seed = args.u64("seed", 1);
+    let props = args.str("props", "");
+    let window = args.u64("window", 800);
+    let plan = plan_for(&family, seed);
+    let out = run_plan(&plan, scratch);
+    let mut rep = ShardReport::new("simone");
+    rep.eval(true, out.signature);
+    eprintln!("plan: {}", plan.describe());
+    eprintln!("counters: {:?}", out.counters);
+    for f in &out.findings {
+        eprintln!("FINDING t={} {} {} {}", f.t, f.property, f.signature, f.detail);
+    }
+    if let Some(f) = out.findings.iter().find(|f| props.is_empty() || props == f.property) {
+        let pats: Vec<String> = args.str("grep", "").split('|').filter(|s| !s.is_empty()).map(|s| s.to_string()).collect();
+        for e in out.trace_around(f.t, window, 5000) {
+            let s = e.to_string();
+            if pats.is_empty() || pats.iter().any(|p| s.contains(p.as_str())) {
+                eprintln!("{s}");
+            }
+        }
+        rep.violation(f.property, &f.signature, json!({"t": f.t, "detail": f.detail}), plan.describe());
+    }
+    rep
+}
+
+pub fn run_directed(which: &str, args: &Args, scratch: &Path) -> ShardReport {
+    let seed = args.u64("seed", 1);
+    let shard = args.u64("shard", 0);
+    let runs = args.u64("runs", 100);
+    let mut rep = ShardReport::new(which);
+    let s = seed.wrapping_mul(1_000_003).wrapping_add(shard);
+    match which {
+        "c37" => crate::sim::directed::run_c37(s, runs, scratch, &mut rep),
+        "c35" => crate::sim::directed::run_c35(s, runs, scratch, &mut rep),
+        "c13" => {
+            // 6 configurations; shard i runs configuration (i % 6) + 1
+            crate::sim::directed::run_c13(s, scratch, &mut rep, Some(shard % 6 + 1));
+        }
+        _ => rep.inconclusive.push("unknown directed check".into()),
     }
     rep
 }
